@@ -633,7 +633,7 @@ def load(f, **options):  # type: (typing.IO, **typing.Any) -> canmatrix.CanMatri
                     frame.add_comment(comment)
                 elif line.startswith('Type='):
                     if line.split('=')[1][:8] == "Extended":
-                        frame.arbitration_id.extended = 1
+                        frame.arbitration_id.extended = True
                 elif line.startswith('DLC='):
                     frame.size = int(line.split('=')[1])
 
